@@ -36,6 +36,9 @@ type OBuilder struct {
 	// Admissible restricts to the plans C08 admits: at most one non-null
 	// branch per oneof group, no null/unknown collection elements.
 	Admissible bool
+	// StrictOneof (with Admissible): every branch but the chosen one is null
+	// (an unknown branch counts as "not null"); the chosen one may be unknown.
+	StrictOneof bool
 	// NoUnknown removes the unknown state (fully known earlier states).
 	NoUnknown bool
 	Points    []string
@@ -219,7 +222,7 @@ func (b *OBuilder) Object(m *spec.Msg, t types.ObjectType, path string) tftypes.
 			as := groups[g]
 			sort.Slice(as, func(i, j int) bool { return as[i].Name < as[j].Name })
 			d := 0
-			if b.Base == OBaseKnownZero || b.Base == OBaseKnownFull {
+			if b.Base == OBaseKnownZero || b.Base == OBaseKnownFull || (b.StrictOneof && b.Base == OBaseUnknown) {
 				d = 1
 			}
 			c := b.pick(path+"/oneof:"+g, len(as)+1, d)
@@ -241,7 +244,15 @@ func (b *OBuilder) Object(m *spec.Msg, t types.ObjectType, path string) tftypes.
 				if b.Base == OBaseKnownZero {
 					d = 0
 				}
-				vals[name] = b.Value(a, at, p, false, stZero+b.pick(p, 2, d))
+				if b.StrictOneof && !b.NoUnknown {
+					// known-full, known-zero or unknown
+					c := b.pick(p, 3, map[int]int{OBaseKnownZero: 1, OBaseUnknown: 2}[b.Base])
+					vals[name] = b.Value(a, at, p, false, []int{stFull, stZero, stUnknown}[c])
+				} else {
+					vals[name] = b.Value(a, at, p, false, stZero+b.pick(p, 2, d))
+				}
+			} else if b.StrictOneof {
+				vals[name] = b.Value(a, at, p, false, stNull)
 			} else {
 				d := 0
 				if b.Base == OBaseUnknown && !b.NoUnknown {
